@@ -32,6 +32,20 @@ HEADS = [
     ("L.index", "index", True),
     ("L.a.sum()", "scalar", True),
     ("L.dropna(subset=['b'])", "dropna", True),
+    ("dx.concat([L, L])", "concat", True),
+    ("dx.concat([L[['a', 'c']], R])", "concat-other", True),
+    ("L.set_index('a', divisions=[-100, 0, 100])", "set_index", False),
+    ("L.cumsum()", "cumulative", True),
+    ("L.shift(1)", "window", True),
+    ("L.loc[1:2]", "loc", True),
+    ("L.head(3, npartitions=-1, compute=False)", "head", True),
+    ("L.tail(2, compute=False)", "tail", True),
+    ("L.drop_duplicates(subset=['a'])", "dedup", False),
+    ("L.nlargest(2, 'a')", "nlargest", False),
+    ("L.a.value_counts()", "value_counts", False),
+    ("L.repartition(npartitions=3)", "repartition-more", True),
+    ("L.merge(R, on='a', how='left', broadcast=True)", "broadcast-join", False),
+    ("L.sort_values('a', npartitions=1)" if False else "L.a.unique()", "unique", False),
 ]
 
 RESTS = [
@@ -50,13 +64,17 @@ RESTS = [
 ]
 
 
-def configs(tier):
+def configs(tier, cuts=("persist", "delayed", "legacy", "inplace")):
     out = []
     layouts = [(4, 2)] if tier == "quick" else [(4, 2), (5, 3), (3, 1)]
     for nrows, nparts in layouts:
         for htext, htag, hordered in HEADS:
             for rtext, rtag in RESTS:
-                for cut in ("persist", "delayed", "legacy", "inplace"):
+                if htag == "set_index" and rtag == "head":
+                    # head() reads the first partition(s) only (documented); an optimised / re-imported set_index result keeps its
+                    # possibly empty first partition, while the uncut query turns head-of-set_index into a global n-smallest
+                    continue
+                for cut in cuts:
                     if cut == "inplace" and (rtag in ("merge", "to_frame") or htag in ("index", "scalar")):
                         continue
                     out.append(dict(head=htext, htag=htag, rest=rtext, rtag=rtag, cut=cut, nrows=nrows, nparts=nparts, ordered=hordered and rtag in ("identity", "add", "filter", "filter-series", "head", "to_frame")))
@@ -111,6 +129,11 @@ def check(c) -> list[Result]:
             if len(parts) != len(keys):
                 raise StructuralError(f"persist: {len(parts)} values for {len(keys)} keys")
             return rebuild(dict(zip(keys, parts)), *args)
+        if c["cut"] == "optimize":
+            # C19: continue on an already optimised (lowered, fused) collection; the whole query is optimised again later
+            return head.optimize()
+        if c["cut"] == "optimize-nofuse":
+            return head.optimize(fuse=False)
         if c["cut"] == "inplace":
             from dask.core import flatten
             from dask.local import get_sync
@@ -188,7 +211,7 @@ def check(c) -> list[Result]:
     try:
         if _labels_of_meta(q0._meta)[:2] != _labels_of_meta(q1._meta)[:2]:
             return [Result(name, VIOLATION, name, f"schema differs: {_labels_of_meta(q0._meta)} vs {_labels_of_meta(q1._meta)}", payload)]
-        if c["cut"] in ("persist", "legacy", "inplace") or head.known_divisions:
+        if c["cut"] in ("persist", "legacy", "inplace", "optimize", "optimize-nofuse") or head.known_divisions:
             if tuple(q0.divisions) != tuple(q1.divisions):
                 return [Result(name, VIOLATION, name, f"divisions differ: {q0.divisions} vs {q1.divisions}", payload)]
     except Exception as e:
